@@ -105,7 +105,11 @@ def cfgs_for(tier: str) -> list[Cfg]:
             Cfg(max_depth=3, max_stmts=3, max_routines=2, **good), Cfg(flat=True, max_stmts=3, max_routines=2, **good),
             Cfg(max_depth=2, max_stmts=3, max_routines=2, loops=False, **good), Cfg(max_depth=2, max_stmts=3, max_routines=1, switches=False, **good),
             Cfg(max_depth=2, max_stmts=3, max_routines=2, coro=True, **good),
-            Cfg(max_depth=2, max_stmts=3, max_routines=2, reader_shaped=True), Cfg(max_depth=3, max_stmts=4, max_routines=3, reader_shaped=True)]
+            Cfg(max_depth=2, max_stmts=3, max_routines=2, reader_shaped=True), Cfg(max_depth=3, max_stmts=4, max_routines=3, reader_shaped=True),
+            # "other layouts of the same flow graphs": branch ops aiming anywhere (lone jumps folded into the branch), no Jump between tests
+            Cfg(max_depth=1, max_stmts=2, max_routines=1, reader_shaped=True, goto_style=1.0),
+            Cfg(max_depth=1, max_stmts=4, max_routines=1, reader_shaped=True, goto_style=1.0, switches=False, loops=False),
+            Cfg(max_depth=2, max_stmts=4, max_routines=2, reader_shaped=True, goto_style=0.7)]
 
 
 def evaluate(sets: list[dict], results: list[dict], drv: core.Driver, jobs: int) -> tuple[list[list[tuple[str, str, dict]]], Counter]:
@@ -169,7 +173,7 @@ def wf_filter(sets: list[dict], drv: core.Driver, jobs: int) -> list[dict]:
 
 
 def run(run: core.Run) -> int:
-    n = 1200 if run.tier == "quick" else 8000
+    n = 2000 if run.tier == "quick" else 8000
     prep = core.lean_prepare(MODULES)
     aud = core.audit(THEOREMS, MODULES) if prep["proofs_ok"] else {"obligations": len(THEOREMS), "discharged": 0, "ok": False, "theorems": {}}
     if not prep["driver_ok"]:
